@@ -2,7 +2,7 @@
 # seed_eval.sh <seed-dir> [checks...]: apply /verif/seeded/<id>/patch.diff to /repo, run the checks, undo.
 set -u
 SD=$1; shift
-CHECKS=${@:-"C01 C02 C03 C05 C06 C07 C08 C09 C10 C11 C12 C13 C14 C15 C16 C17 C18 C20"}
+CHECKS=${@:-"C01 C02 C03 C04 C05 C06 C07 C08 C09 C10 C11 C12 C13 C14 C15 C16 C17 C18 C19 C20"}
 cd /verif
 git -C /repo diff --quiet || { echo "/repo has local changes"; exit 2; }
 git -C /repo apply $(realpath $SD/patch.diff) || { echo "patch does not apply to /repo"; exit 2; }
